@@ -26,9 +26,24 @@ import z3
 STATS = {"queries": 0, "solver_s": 0.0, "feasibility_queries": 0, "unknown": 0}
 
 
-def _timed_check(solver: z3.Solver, *assumptions) -> str:
+def _timed_check(solver: z3.Solver, *assumptions, hard_ms: Optional[int] = None) -> str:
+    """solver.check with a watchdog: z3's own timeout is not always honoured inside nlsat, so a timer interrupts the
+    context a little after the soft timeout; an interrupted check answers `unknown`."""
+    import threading
+
     t0 = time.time()
-    r = solver.check(*assumptions)
+    timer = None
+    if hard_ms:
+        timer = threading.Timer(hard_ms / 1000.0, solver.ctx.interrupt)
+        timer.daemon = True
+        timer.start()
+    try:
+        r = solver.check(*assumptions)
+    except z3.Z3Exception:
+        r = z3.unknown
+    finally:
+        if timer is not None:
+            timer.cancel()
     STATS["queries"] += 1
     STATS["solver_s"] += time.time() - t0
     s = str(r)
@@ -110,6 +125,7 @@ class PathManager:
         self.pc: list = list(self.precondition)
         self.side: list = []  # definitional side conditions (sqrt, uninterpreted axioms)
         self._fresh = 0
+        self.sqrt_memo = {}
         self.solver = z3.Solver()
         self.solver.set("timeout", self.timeout_ms)
         for c in self.pc:
@@ -136,8 +152,8 @@ class PathManager:
             taken = self.prefix[idx]
         else:
             STATS["feasibility_queries"] += 2
-            can_t = _timed_check(self.solver, cond) != "unsat"
-            can_f = _timed_check(self.solver, z3.Not(cond)) != "unsat"
+            can_t = _timed_check(self.solver, cond, hard_ms=self.timeout_ms + 2000) != "unsat"
+            can_f = _timed_check(self.solver, z3.Not(cond), hard_ms=self.timeout_ms + 2000) != "unsat"
             if can_t and can_f:
                 taken = True
                 self.worklist.append(self.decisions + [False])
@@ -408,8 +424,12 @@ class SReal:
     # -- things numpy object loops call by name
     def sqrt(self):
         pm = _pm()
+        key = self.e.get_id()
+        if key in pm.sqrt_memo:  # sqrt of the structurally same term is the same term
+            return SReal(pm.sqrt_memo[key][0])
         r = pm.fresh("sqrt")
         pm.assume(z3.And(r >= 0, r * r == self.e))
+        pm.sqrt_memo[key] = (r, self.e)  # keep the argument alive so that its AST id is not reused
         return SReal(r)
 
     def conjugate(self):
@@ -588,6 +608,19 @@ def as_sym_array(values) -> SymArray:
     return a.view(SymArray)
 
 
+def same_cell(x, y):
+    """Claim `x == y` for two cells; reflexive instances (structurally identical terms) are discharged on the spot."""
+    a, b = to_z3(x), to_z3(y)
+    if a.eq(b):
+        return z3.BoolVal(True)
+    return a == b
+
+
+def conj(claims):
+    cs = [c for c in claims if not z3.is_true(c)]
+    return z3.And(*cs) if cs else z3.BoolVal(True)
+
+
 def lift(x) -> z3.ArithRef:
     """z3 term of a cell produced by the code under test (SReal, SBool or a concrete number)."""
     return to_z3(x)
@@ -607,7 +640,7 @@ def prove(claim, pc: list, *, logic: Optional[str] = "QF_NRA", timeout_ms: int =
     for c in pc:
         s.add(c)
     s.add(z3.Not(claim))
-    r = _timed_check(s)
+    r = _timed_check(s, hard_ms=timeout_ms + 2000)
     if r == "unsat":
         return "proved", None
     if r == "sat":
@@ -620,7 +653,7 @@ def satisfiable(conds: list, *, logic: Optional[str] = "QF_NRA", timeout_ms: int
     s.set("timeout", timeout_ms)
     for c in conds:
         s.add(c)
-    r = _timed_check(s)
+    r = _timed_check(s, hard_ms=timeout_ms + 2000)
     return r, (s.model() if r == "sat" else None)
 
 
